@@ -408,6 +408,19 @@ def one(rep, prog, cfg):
             defs = [bb for bb, i, s2 in co.stmts() if s2["k"] == "assign" and s2["place"]["l"] == resl and not s2["place"]["p"]]
             if len(defs) != 1:
                 continue
+            # the failed outcome: every way out of the function passes a hand-over of the failure (responder send / closing event)
+            # — a pattern that swallows some error kinds without binding them (`Ok(None) | Err(Io(_)) => return Err(())`) has no
+            # binding for the flow rule above to follow, so this is decided on the outcome itself (A13)
+            if "MpdProtocolError" not in co.local_ty(0):
+                sinks = {bb for bb, t in co.calls() if ONESEND in callee_names(t) or EVSEND in callee_names(t)}
+                handlers = {bb for bb, t in co.calls() if (callee(t) or {}).get("def", "").startswith("mpd_client::client::connection::")
+                            or ((callee(t) or {}).get("inst") or "").startswith("mpd_client::client::connection::")}
+                eb = vr.blocks_after_def(defs[0], resl, ("Err",), avoid=sinks | handlers)
+                silent = sorted(bb for bb in eb if co.blocks[bb]["t"]["k"] == "return")
+                rep.check(not silent, "C08.error-flow", "%s/%s failed %s is handed over on every way out" % (cfg, fn_name(prog, co), op),
+                          co.loc(co.blocks[defs[0]]["ts"]),
+                          "when %s fails in %s there is a way to the function's return that passes no responder send and no closing event: that "
+                          "failure is reported to nobody (callers and the event stream see a clean close)" % (op, fn_name(prog, co)))
             n_none += 1
             blocks = vr.blocks_after_def(defs[0], resl, ("Ok", "None"))
             more = sorted(blocks & conn_ops)
